@@ -22,7 +22,14 @@ META = {
              "doubly stochastic (8 named deviations are required to violate their invariant). Every emitted behaviour is replayed "
              "with scripted draws on both implementations (visited leaves, (n', s', candidate, ends) of every _BuildTree call, "
              "selected point, cached log-density and gradient, acceptance flag, tree nodes, statistic); recorded real chains with "
-             "and without warm-up are validated against the trace refinement."),
+             "and without warm-up are validated against the trace refinement. Sequences on ONE sampler object (NutsSeq.tla: shift lemma - "
+             "on a flat table the orbit seen from the leaf where a transition ended is again an orbit of the instance - and an object "
+             "machine over max_depth / step_size / target / step size in use / owner of the caches; deviations DevReinitKeepsCache and "
+             "DevDepthFrozenAtInit refuted): seeded walks replay transitions back-to-back on one object (the second starts where the first "
+             "ended), with max_depth assigned between transitions and the target switched as HybridGibbs does (target, step_size, "
+             "initial_point = current_point, reinitialize()); legacy: sample() calls on one object with max_depth / adapt_step_size / x0 / "
+             "target assigned in between; after every operation the cached log-density and gradient belong to the current point under the "
+             "current target."),
     "note": ("One transition at a fixed step size on 1-D lattice orbits (the tree logic does not depend on the dimension); the "
              "step-size adaptation itself is only covered through the statistic it consumes and the boolean trace facets; "
              "target invariance is decided as double stochasticity of the exact kernel on bounded ring orbits plus conformance "
@@ -427,7 +434,17 @@ def run(ctx):
     warnings.filterwarnings("ignore")
     for cls in NR.nuts_classes().values():
         NR.Tap(cls)                                   # wrapper targets present? (MachineryError otherwise)
-    res = _tlc_jobs(ctx)
+    from cuqiverif import c08_seq
+    seq_jobs = c08_seq.start_tlc(ctx)               # NutsSeq: behaviours on its lattice, object machine, two named deviations
+    try:
+        res = _tlc_jobs(ctx)
+    except BaseException:
+        for f in seq_jobs.values():
+            try:
+                _tlc.cleanup(f.result())
+            except BaseException:      # noqa: BLE001
+                pass
+        raise
     try:
         cases = list(res["main"].cases)
         orbits = {_okey(c["orb"]): c for c in cases if c["kind"] == "orbit"}
@@ -469,6 +486,9 @@ def run(ctx):
                                "direction_uniforms": {k: {str(a): b for a, b in v.items()} for k, v in dirmap.items()}})
         if DRAW_OBS:
             ctx.observe("conforming_behaviours_with_other_number_of_draws", DRAW_OBS)
+        # ONE sampler object: several transitions, max_depth / step_size / target reassigned, reinitialize in between
+        c08_seq.run(ctx, seq_jobs, dirmap, _guard)
+        seq_jobs = {}
         deep = max(nuts, key=lambda c: (len(c["draws"]), c["acc"]))
         ctx.sample({"behaviour": {k: deep[k] for k in ("orb", "md", "ed", "draws", "leaves", "subs", "cur", "acc", "ntree", "al", "na")},
                     "orbit": {k: orbits[_okey(deep["orb"])][k] for k in ("eps", "x", "r", "g", "lp")}})
@@ -479,6 +499,11 @@ def run(ctx):
     finally:
         for r in res.values():
             _tlc.cleanup(r)
+        for f in seq_jobs.values():
+            try:
+                _tlc.cleanup(f.result())
+            except BaseException:      # noqa: BLE001
+                pass
     ctx.rule = ("behaviours = all terminal states of the bounded Nuts instance (BFS: orbit word x phase x log-density table x step "
                 "size x max_depth 0..2 x slice draw x direction bits x decision classes; thorough adds simulated max_depth 3 "
                 "behaviours); each is replayed on both implementations; distinct = (implementation, orbit, max_depth, slice draw, "
@@ -507,6 +532,16 @@ def replay(ctx, case):
         return
     if kind == "direction":
         _dirmaps(ctx, {_okey(case["orbit"]["orb"]): case["orbit"]})
+        return
+    if kind == "nutsseq":
+        from cuqiverif import c08_seq
+        o = case.get("orbit")
+        if o is None:
+            res = ctx.tlc("Nuts", cfg="Nuts.quick.cfg", workers=8, timeout=2400)
+            o = next(c for c in res.cases if c["kind"] == "orbit" and c["eps"] == [1, 2])
+            from cuqiverif import tlc as _tlc
+            _tlc.cleanup(res)
+        c08_seq.replay(ctx, case, _dirmaps(ctx, {_okey(o["orb"]): o}), _guard)
         return
     orbit = case["orbit"]
     dirmap = _dirmaps(ctx, {_okey(orbit["orb"]): orbit})
